@@ -43,7 +43,9 @@ reactivex.interval(p, scheduler=s).subscribe(f) / reactivex.interval(p).subscrib
 scheduler=s).  ORACLE ONLY (eldrv.periodic_oracle): tick k gets f^k(st0) (interval: k), ticks
 never overlap, first tick >= call + period, consecutive ticks >= a period apart, no tick once a
 dispose() returned before the previous tick ended or before the tick could be due, at most one
-after any dispose(), none after a raise, keeps going until stopped.
+after any dispose(), none after a raise, keeps going until stopped.  Core/PeriodicRT.v proves the
+arithmetic behind the lower bounds (C35_rt_*: next due time >= start + period for all clock
+readings, spacing / k-th tick bound along any chain of not-early ticks); not tied to the code.
 (c') half of the interval / timer(d, p) cases of (c) hand the scheduler to the FACTORY
 (reactivex.interval(p, scheduler=s)) and subscribe without one.
 NOT covered: mainloop / asyncio schedulers; real thread scheduling delays and the wake-up
@@ -433,13 +435,25 @@ def run(chk):
                        "x dispose during the run from inside/outside x raise; periods 0 and 1000 us) as first iteration "
                        "and after a short / an overrunning predecessor (thorough: all pairs of records of a reduced "
                        "domain), plus seeded scripts of 1..8 (thorough ..19) iterations over periods {0, 1 us, 1 ms, "
-                       "0.25 s, 1 s, 3 s, random, -1 ms}.  non-trivial = distinct cases with at "
-                       "least two calls/emissions")
+                       "0.25 s, 1 s, 3 s, random, -1 ms}, a third of (d) on ThreadPoolScheduler; in (c) every other case "
+                       "hands the scheduler to the factory (interval(p, scheduler=s)) instead of subscribe; (e) ORACLE "
+                       "ONLY: schedule_periodic on EventLoopScheduler / TimeoutScheduler / NewThreadScheduler / "
+                       "ThreadPoolScheduler under K3 with time: fixed + seeded cases of 1-2 subscriptions (direct or "
+                       "through reactivex.interval with the scheduler to the factory / to subscribe; periods 0.5 ms .. "
+                       "0.25 s as timedelta or float; five transformers; ticks taking 0 / half / the / more than the "
+                       "period; raising ticks; ticks that schedule), a stopping thread that waits for the controlled "
+                       "clock, one-shot actions next to them, a clock thread, for EventLoopScheduler also exit_if_empty, "
+                       "dispose() and schedule_periodic after dispose(); every (case, scheduler) under all schedules with "
+                       "<= 2 (thorough 3) preemptions (capped), seeded random and fine-grained schedules.  non-trivial = "
+                       "distinct cases with at least two calls/emissions ((e): distinct (case, log) with two ticks and a "
+                       "preemption)")
     chk.cov["input_distribution"] = hist
-    chk.cov["not_covered"] = ("EventLoopScheduler, TimeoutScheduler, ThreadPoolScheduler and the "
-                              "mainloop/eventloop schedulers: periodic scheduling there is not driven here; "
-                              "NewThreadScheduler: real thread-scheduling delays and the wake-up latency of Event.wait "
-                              "(the controlled world has zero latency) (partial)")
+    chk.cov["not_covered"] = ("mainloop / asyncio schedulers: periodic scheduling there is not driven here; "
+                              "EventLoopScheduler / TimeoutScheduler: oracle on explored interleavings only (no model, "
+                              "no theorem; lower bounds on tick times only); "
+                              "NewThreadScheduler / ThreadPoolScheduler: real thread-scheduling delays and the wake-up "
+                              "latency of Event.wait in the exact-time claims "
+                              "(the baton-controlled world has zero latency) (partial)")
     chk.add_samples([{"case": g[0][:300]} for g in gal[::max(1, len(gal) // 4)]], limit=4)
     chk.add_samples([{"newthread_case": g[0][:300], "trace": g[1][:300]}
                      for g in nt_gal[::max(1, len(nt_gal) // 2)]], limit=6)
@@ -448,13 +462,19 @@ def run(chk):
                        "interval/timer: the observable layer (Observable.subscribe, AutoDetachObserver) is executed, "
                        "modelled only through the scheduler calls it makes",
                        "Core/NewThreadPeriodic.v hand-written model of NewThreadScheduler.schedule_periodic's loop, "
-                       "validated by this run's correspondence; harness/ntpdrv.py (controlled clock / Event / thread: "
-                       "the loop thread and the main thread alternate through a baton)"],
+                       "validated by this run's correspondence; harness/ntpdrv.py (controlled clock / Event / thread / "
+                       "executor: the loop thread and the main thread alternate through a baton)",
+                       "harness/k3.py + harness/k3_time.py (baton controller, controlled Condition / Event / Timer / "
+                       "Thread / executor / clock; self-test on every run), harness/eldrv.py + harness/rtdrv.py (driver "
+                       "of the periodic ops, periodic_oracle)"],
         assumptions=["virtual-time schedulers: the only way an action takes virtual time is scheduler.sleep",
                      "new-thread loop: zero latency -- the clock moves only inside disposed.wait (by exactly the "
                      "timeout, or to the instant of the waking dispose()) and inside the action; dispose() is atomic "
                      "w.r.t. the loop's steps (it only sets the Event)",
-                     "period > 0 for the closed form (period 0 or negative keeps advance_to busy forever by design)"])
+                     "period > 0 for the closed form (period 0 or negative keeps advance_to busy forever by design)",
+                     "K3 family (e): preemption only at the yield points of the chosen granularity; a timer / a timed "
+                     "wait never returns before its timeout on the scheduler clock; periods > 0; the start of a tick is "
+                     "stamped with the clock the scheduler read last before calling the action"])
 
 
 # ---------------------------------------------------------------------------------------------------------
